@@ -2,11 +2,19 @@
 use serde_json::{Value, json};
 use std::path::Path;
 
+pub mod rematch;
+pub mod audit;
+pub mod price;
 pub mod run;
 
 pub fn dispatch(case: &Value, dir: &Path) -> Value {
     match case.get("op").and_then(|x| x.as_str()) {
         Some("run") => run::op_run(case, dir),
+        Some("rematch") => rematch::op_rematch(case),
+        Some("peel") => rematch::op_peel(case),
+        Some("audit") => audit::op_audit(case, dir),
+        Some("hash") => audit::op_hash(case, dir),
+        Some("price") => price::op_price(case, dir),
         Some(op) => json!({"r": "BADCASE", "msg": format!("unknown op {op}")}),
         None => json!({"r": "BADCASE", "msg": "no op"}),
     }
